@@ -725,6 +725,78 @@ package builder
 //@ #endif
 //@   ensures [ctx] Ctx0(p) && StateOK(p)
 
+// The option constructors (C05, C06, C11, C16, C17): each returns a closure; "<Name>$lit" is that closure, verified
+// with the constructor's parameters as extra leading parameters. Applied to a parser it sets exactly the
+// documented field to the constructor's argument (and returns the option that undoes it: an opaque value here).
+//@ extern MaxExpressions(maxExprCnt uint64) (o Option)
+//@ extern Entrypoint(ruleName string) (o Option)
+//@ extern AllowInvalidUTF8(b bool) (o Option)
+//@ extern Recover(b bool) (o Option)
+//@ extern GlobalStore(key string, value any) (o Option)
+//@ func MaxExpressions$lit(maxExprCnt uint64, p *parser) (prev Option)
+//@   requires [ctx] p != nil
+//@   modifies p.maxExprCnt
+//@   ensures [sets C16] p.maxExprCnt == maxExprCnt
+//@   safety C11
+//@   frame C18
+//@ func Entrypoint$lit(ruleName string, p *parser) (prev Option)
+//@   requires [ctx] p != nil
+//@   modifies p.entrypoint
+//@   ensures [sets C01] p.entrypoint == ite(ruleName == "", g.rules[0].name, ruleName)
+//@   safety C11
+//@   frame C18
+//@ func AllowInvalidUTF8$lit(b bool, p *parser) (prev Option)
+//@   requires [ctx] p != nil
+//@   modifies p.allowInvalidUTF8
+//@   ensures [sets C17] p.allowInvalidUTF8 == b
+//@   safety C11
+//@   frame C18
+//@ func Recover$lit(b bool, p *parser) (prev Option)
+//@   requires [ctx] p != nil
+//@   modifies p.recover
+//@   ensures [sets C11] p.recover == b
+//@   safety C11
+//@   frame C18
+//@ func GlobalStore$lit(key string, value any, p *parser) (prev Option)
+//@   requires [ctx] p != nil && p.cur.globalStore != nil
+//@   modifies mapof(p.cur.globalStore)
+//@   ensures [sets C05] has(p.cur.globalStore, key) && p.cur.globalStore[key] == value
+//@   ensures [only C05] forall k string :: {has(p.cur.globalStore, k)} k != key ==> has(p.cur.globalStore, k) == old(has(p.cur.globalStore, k)) && p.cur.globalStore[k] == old(p.cur.globalStore[k])
+//@   safety C11
+//@   frame C18
+//@ #if dbg
+//@ extern Debug(b bool) (o Option)
+//@ extern Memoize(b bool) (o Option)
+//@ extern Statistics(stats *Stats, choiceNoMatch string) (o Option)
+//@ func Debug$lit(b bool, p *parser) (prev Option)
+//@   requires [ctx] p != nil
+//@   modifies p.debug
+//@   ensures [sets C06] p.debug == b
+//@   safety C11
+//@   frame C18
+//@ func Memoize$lit(b bool, p *parser) (prev Option)
+//@   requires [ctx] p != nil
+//@   modifies p.memoize
+//@   ensures [sets C06] p.memoize == b
+//@   safety C11
+//@   frame C18
+//@ func Statistics$lit(stats *Stats, choiceNoMatch string, p *parser) (prev Option)
+//@   requires [ctx] p != nil && stats != nil
+//@   modifies p.Stats, p.choiceNoMatch, stats.ChoiceAltCnt
+//@   ensures [sets C06] p.Stats == stats && p.choiceNoMatch == choiceNoMatch && stats.ChoiceAltCnt != nil
+//@   safety C11
+//@   frame C18
+//@ #endif
+//@ #if state
+//@ extern InitState(key string, value any) (o Option)
+//@ func InitState$lit(key string, value any, p *parser) (prev Option)
+//@   requires [ctx] p != nil && p.cur.state != nil
+//@   modifies mapof(p.cur.state)
+//@   ensures [sets C05] has(p.cur.state, key) && p.cur.state[key] == value
+//@   safety C11
+//@   frame C18
+//@ #endif
+
 //@ func (p *parser) setOptions(opts []Option)
 //@   requires [ctx] Ctx0(p) && StateOK(p)
 //@ #if dbg
